@@ -54,6 +54,7 @@ var glUnits = []glUnit{
 	}},
 	{"GoParse", []glTarget{
 		{"service", "packageParse", "unpack"},
+		{"service", "Message", "hasComplete"},
 	}},
 	{"GoTerm", []glTarget{
 		{"terminal", "Terminal", "CreateCommandData"},
